@@ -237,7 +237,7 @@ def v3_user(level, method="md5", priv="vstream", name=b"alice", auth_pw=b"authpa
 def reset_plugins():
     from .ref import usm
 
-    for name in ("vstream", "vblock", "vrecord"):
+    for name in ("vstream", "vblock", "vrecord", "vsalt16", "vsalt0"):
         mod = sys.modules.get("puresnmp_plugins.priv." + name)
         if mod is not None:
             mod.reset()
